@@ -4,10 +4,11 @@ CONSTANTS
   Ints <- WideInts
   Strs <- WideStrs
   Tags <- WideTags
+  Simples <- AllSimples
   MaxStack = 2
   MaxNodes = 3
   MaxDepth = 2
   MaxArr = 2
   MaxPairs = 1
   AllowWrap = TRUE
-INVARIANTS TypeOK RoundTrip SelfDelimiting NoItemIsAPrefix PrefixFree CanonicalEncoding ReEncode HeadIsShortest WrapIsExact 
+INVARIANTS Theorems 
